@@ -1,6 +1,6 @@
 (* C12 correspondence: how observed implementation steps are compared with the model.
    Used by the generated run/C12/cases_*.v files.  Not part of any theorem. *)
-From Hy Require Import lib.Harness model.C12_Queue model.C12_Sender.
+From Hy Require Import lib.Harness lib.F64 lib.F64x model.C12_Queue model.C12_Sender model.C12_Full.
 From Coq Require Import ZArith Bool List.
 Import ListNotations.
 Local Open Scope Z_scope.
@@ -197,13 +197,147 @@ Definition trace_ok (m0 : Z) (tr : list (list Z)) : bool :=
   | Some evs => quic_consistent m0 (map fst evs) && bk_cmp (pq_new 0 c12_connectionStateMapQueueSize) evs
   end.
 
+
+(* ---------------------------------------------------------------- whole-trace replay (layer 3) *)
+(* The harness records every call made on the real bbrSender from its construction on, one packed number per call
+   (plus one per acked / lost packet) carrying the call's arguments and a digest of the FULL state after the call
+   (harness/go/c12/c12_replay_test.go: c12FullObs).  The model replays the calls from new_full and has to reproduce
+   every digest.  obs_of is the model's rendering of c12FullObs, field by field in the same order. *)
+Definition sts_obs (s : sts) : list Z :=
+  [b2z (s_valid s); b2z (s_appLimited s); s_sent s; s_acked s; s_lost s; s_inflight s].
+Definition cse_obs (e : cse) : list Z :=
+  [c_sentTime e; c_size e; c_tbsAtLastAcked e; c_lastAckedSentTime e; c_lastAckedAckTime e] ++ sts_obs (c_sts e).
+Definition went_obs (e : Z * Z) : list Z := [fst e; snd e].
+Definition xent_obs (e : xev * Z) : list Z := let '(x, b, d, r) := fst e in [x; b; d; r; snd e].
+Definition ring_layout {T} (r : ring T) : list Z :=
+  [Z.of_nat (rb_len r); Z.of_nat (rb_cap r); Z.of_nat (r_head r); Z.of_nat (r_tail r); b2z (r_full r)].
+
+Definition res_z (r : Res Z) : Z := match r with Ok v => v | _ => -7 end.
+
+Definition obs_of (P : prof) (st : fstate) (now rttMin idx : Z) : list Z :=
+  let w := fw st in let m := fm st in let pc := fpc st in let s := fs st in let t := sm_trk s in let q := sm_csm s in
+  let bw := res_z (f_bw_for_pacer P st rttMin) in
+  st_list w ++
+  [m_numLossEv m; m_bytesLostInRound m] ++ went_obs (w0 (m_maxBw m)) ++ went_obs (w1 (m_maxBw m)) ++ went_obs (w2 (m_maxBw m)) ++
+  [w_len (m_maxBw m); m_minRtt m; m_minRttTs m; m_pacingRate m; bits (m_pacingGain m); bits (m_cwndGain m);
+   m_cycleOff m; m_lastCycleStart m; m_roundsNoGain m; m_bwAtLastRound m; b2z (m_exitingQuiescence m);
+   m_exitProbeRttAt m; b2z (m_probeRttRoundPassed m); b2z (m_lastSampleAppLimited m); b2z (m_hasNoAppLimitedSample m);
+   b2z (m_detectOvershooting m); m_bytesLostOvershoot m;
+   bits (p_highGain P); bits (p_highCwndGain P); bits (p_drainGain P); bits (p_cwndGainConst P); p_numStartupRtts P;
+   b2z (p_drainToTarget P); p_bytesLostMult P; b2z (p_enableAckAgg P); b2z (p_expireAckAgg P);
+   p_budget pc; p_mds pc; p_last pc;
+   sm_totalSent s; sm_totalAcked s; sm_totalLost s; 0; sm_tbsAtLastAcked s; sm_lastAckedSentTime s; sm_lastAckedAckTime s;
+   sm_lastSent s; sm_lastAcked s; b2z (sm_appLimited s); sm_endOfAppLimited s;
+   fst (sm_rap0 s); snd (sm_rap0 s); fst (sm_rap1 s); snd (sm_rap1 s); sm_totalAckedAfterLast s;
+   b2z (p_overestimateAvoidance P); 0;
+   t_epochStart t; t_epochBytes t; t_lastSentBeforeEpoch t; t_numEpochs t; bits (t_threshold t);
+   b2z (t_newEpochAfterFullRound t); b2z (t_reduce t)] ++
+  xent_obs (w0 (t_filter t)) ++ xent_obs (w1 (t_filter t)) ++ xent_obs (w2 (t_filter t)) ++ [w_len (t_filter t)] ++
+  [q_np q; q_first q] ++ ring_layout (q_entries q) ++ ring_layout (sm_a0 s) ++
+  (match pq_get cse0 q (sm_lastSent s) with
+   | Ok (Some e) => 1 :: cse_obs e
+   | _ => [0; 0; 0; 0; 0; 0; 0; 0; 0; 0; 0; 0]
+   end) ++
+  [f_get_cwnd st; res_z (pacing_rate_f P w m rttMin); bw; pacer_budget pc bw now; pacer_time_until_send pc bw;
+   b2z (mds w <=? pacer_budget pc bw now); b2z (f_can_send st (inflight w))] ++
+  (if Z.rem idx 50 =? 0
+   then [zdigest (flat_map (fun e : bool * cse => b2z (fst e) :: cse_obs (snd e)) (r_buf (q_entries q)));
+         zdigest (flat_map (fun a : ackpt => [fst a; snd a]) (r_buf (sm_a0 s)))]
+   else [0; 0]).
+
+(* uint64 rendering of an int64 (the harness digests two's complement values; zdigest works modulo 2^32, so the
+   sign does not matter) *)
+
+(* low k bits of a positive / the rest *)
+Fixpoint psplit (k : nat) (p : positive) : Z * Z :=
+  match k with
+  | O => (0, Zpos p)
+  | S k' => match p with
+            | xH => (1, 0)
+            | xO q => let x := psplit k' q in (Z.double (fst x), snd x)
+            | xI q => let x := psplit k' q in (Z.succ_double (fst x), snd x)
+            end
+  end.
+Definition zsplit (k : nat) (z : Z) : Z * Z := match z with Zpos p => psplit k p | _ => (0, 0) end.
+
+Fixpoint take_pkts (n : nat) (tr : list Z) : list (Z * Z) * list Z :=
+  match n with
+  | O => ([], tr)
+  | S k => match tr with
+           | z :: t => let a := zsplit 40 z in let b := zsplit 20 (snd a) in
+                       let x := take_pkts k t in ((fst a, fst b) :: fst x, snd x)
+           | [] => ([], [])
+           end
+  end.
+
+(* -1: every digest reproduced; i >= 0: first call whose digest differs; -(i+2): the model failed at call i *)
+Fixpoint replay (fuel : nat) (P : prof) (st : fstate) (idx : Z) (tr : list Z) : Z :=
+  match fuel, tr with
+  | _, [] => -1
+  | O, _ => -(idx + 2)
+  | S fuel', z :: rest =>
+    let a := zsplit 2 z in let kind := fst a in
+    let a := zsplit 32 (snd a) in let dig := fst a in
+    let a := zsplit 48 (snd a) in let now := fst a in
+    let a := zsplit 40 (snd a) in let rttMin := fst a in
+    let args := snd a in
+    let r :=
+      match kind with
+      | 0 => let a := zsplit 44 args in let b := zsplit 40 (snd a) in let c := zsplit 20 (snd b) in
+             (f_sent P st now (fst a) (fst b) (fst c) (snd c =? 1) rttMin, rest)
+      | 1 => let a := zsplit 44 args in let b := zsplit 14 (snd a) in let c := zsplit 16 (snd b) in
+             let x := take_pkts (Z.to_nat (fst c)) rest in
+             let y := take_pkts (Z.to_nat (snd c)) (snd x) in
+             (f_cong P st now (fst a) rttMin (fst b) (fst x) (fst y), snd y)
+      | 2 => (f_set_mds st args, rest)
+      | _ => (Ok st, rest)
+      end in
+    match fst r with
+    | Ok st' => if zdigest (obs_of P st' now rttMin idx) =? dig then replay fuel' P st' (idx + 1) (snd r) else idx
+    | _ => -(idx + 2)
+    end
+  end.
+
+Definition replay_ok (prof_i m icw mcw : Z) (tr : list Z) : bool :=
+  let P := prof_of prof_i in
+  replay (length tr) P (new_full P m icw mcw) 0 tr =? -1.
+
+(* diagnostics (not used by check): the model's observation vector after call number `stop` *)
+Fixpoint replay_obs (fuel : nat) (P : prof) (st : fstate) (idx stop : Z) (tr : list Z) : list Z :=
+  match fuel, tr with
+  | S fuel', z :: rest =>
+    let a := zsplit 2 z in let kind := fst a in
+    let a := zsplit 32 (snd a) in
+    let a := zsplit 48 (snd a) in let now := fst a in
+    let a := zsplit 40 (snd a) in let rttMin := fst a in
+    let args := snd a in
+    let r :=
+      match kind with
+      | 0 => let a := zsplit 44 args in let b := zsplit 40 (snd a) in let c := zsplit 20 (snd b) in
+             (f_sent P st now (fst a) (fst b) (fst c) (snd c =? 1) rttMin, rest)
+      | 1 => let a := zsplit 44 args in let b := zsplit 14 (snd a) in let c := zsplit 16 (snd b) in
+             let x := take_pkts (Z.to_nat (fst c)) rest in
+             let y := take_pkts (Z.to_nat (snd c)) (snd x) in
+             (f_cong P st now (fst a) rttMin (fst b) (fst x) (fst y), snd y)
+      | 2 => (f_set_mds st args, rest)
+      | _ => (Ok st, rest)
+      end in
+    match fst r with
+    | Ok st' => if idx =? stop then obs_of P st' now rttMin idx else replay_obs fuel' P st' (idx + 1) stop (snd r)
+    | Panic n => [-(idx + 2); Z.of_N n]
+    | Err _ => [-(idx + 2); -1]
+    end
+  | _, _ => []
+  end.
+
 (* ---------------------------------------------------------------- cases *)
 Inductive case :=
 | CRing (init : nat) (steps : list (Z * Z * list Z))
 | CPQ (size : nat) (steps : list (Z * Z * Z * list Z))
 | CWF (inst : nat) (win : Z) (steps : list (list Z * list Z))
 | CSim (agg : bool) (m0 : Z) (trace : list (list Z)) (dumps : list (list Z))
-| CSeed (cases : list (Z * Z * Z)).
+| CSeed (cases : list (Z * Z * Z))
+| CReplay (prof_i m icw mcw : Z) (trace : list Z).
 
 Definition check (c : case) : bool :=
   match c with
@@ -214,6 +348,7 @@ Definition check (c : case) : bool :=
   | CWF _ win steps => wfx_run (wf_new xev0 win) steps
   | CSim agg m0 trace dumps => trace_ok m0 trace && forallb (dump_ok agg) dumps
   | CSeed cs => forallb (fun c => seed_packet_size (fst (fst c)) (snd (fst c)) =? snd c) cs
+  | CReplay p m icw mcw tr => replay_ok p m icw mcw tr
   end.
 
 Definition mismatches (l : list case) : list nat := mism_from check 0 l.
